@@ -28,6 +28,10 @@ import (
 // The identical message sent to D behaves the same:
 // accepting the message propagates it to E,
 // otherwise the message is discarded and E will not see it.
+//
+// A connection without a consensus handler
+// (before SetConsensusHandler is called, after it is called with nil, or after Disconnect)
+// cannot accept a message, so it discards every incoming message.
 type DaisyChainNetwork struct {
 	log *slog.Logger
 
@@ -321,22 +325,10 @@ func (c *DaisyChainConnection) background(ctx context.Context) {
 
 		case msg := <-c.fromLeft:
 			if h == nil {
-				// No handler. Can we propagate the message rightwards?
-				if toRight == nil {
-					continue
-				}
-
-				// There is a connection to the right. Pass the message through.
-				if !gchan.SendC(
-					ctx, c.log,
-					toRight, msg,
-					"propagating message to right without handler",
-				) {
-					return
-				}
-
-				// Nil handler and it's been propagated,
-				// so wait for the next signal.
+				// No handler, so nothing can accept the message.
+				// Only accepted messages propagate, so drop it,
+				// the same way a real p2p connection ignores messages
+				// while it has no consensus handler.
 				continue
 			}
 
@@ -347,22 +339,7 @@ func (c *DaisyChainConnection) background(ctx context.Context) {
 
 		case msg := <-fromRight:
 			if h == nil {
-				// No handler. Can we propagate the message leftwards?
-				if c.toLeft == nil {
-					continue
-				}
-
-				// There is a connection to the left. Pass the message through.
-				if !gchan.SendC(
-					ctx, c.log,
-					c.toLeft, msg,
-					"propagating message to left without handler",
-				) {
-					return
-				}
-
-				// Nil handler and it's been propagated,
-				// so wait for the next signal.
+				// No handler, so drop the message; see the fromLeft case.
 				continue
 			}
 
